@@ -10,6 +10,9 @@ struct EarlyInit { EarlyInit(); };
 static EarlyInit g_early_init;
 #include "vrt_st.h"
 #include "gen_text.h"
+#include "gen_scale.h"
+#include <sys/wait.h>
+#include <spawn.h>
 
 static long g_early[12];
 static char g_early_out[8];
@@ -34,7 +37,26 @@ using vrt::Rng;
 using vrt::sfmt;
 typedef std::string S;
 
-static std::string show(const S &s) { return vrt::hex(s.data(), s.size()); }
+// scale phases: offset of the planted feature inside the text handed to decode_case (npos = none); big values are reported
+// as length + hash + the bytes around that offset, never in full
+static size_t g_focus = std::string::npos;
+static const size_t BIG = 2048;
+static std::string show(const S &s)
+{
+    return s.size() <= BIG ? vrt::hex(s.data(), s.size()) : scale::brief(s);
+}
+static std::string showt(const S &text)
+{
+    return text.size() <= BIG ? vrt::hex(text.data(), text.size()) : scale::brief(text, g_focus < text.size() ? g_focus : std::string::npos);
+}
+// a text result next to the value it should have had: in full while it is short, otherwise around the first difference
+static std::string txt(const S &got, const S &want)
+{
+    if (got.size() <= BIG) return got;
+    const size_t d = scale::first_diff(got, want);
+    return d == std::string::npos ? scale::brief(got) : sfmt("(first difference at %zu) ", d) + scale::brief(got, d);
+}
+static std::string txt(const ST::string &t) { return t.size() <= BIG ? vrt::str_of(t) : scale::brief(vrt::str_of(t)); }
 
 // ---------------------------------------------------------------- references
 static const char B64[] = "ABCDEFGHIJKLMNOPQRSTUVWXYZabcdefghijklmnopqrstuvwxyz0123456789+/";
@@ -120,6 +142,48 @@ static long implied_b64(const S &s)
     return r;
 }
 
+
+// ---------------------------------------------------------------- scale helpers
+// n bytes of one of several kinds of content: random, homogeneous (0x00 / 0xFF / one random value), a small alphabet, a
+// homogeneous background with one short random stretch near a multiple of a block size
+static const char *const CONTENT[] = {"random", "all-00", "all-ff", "one-value", "small-alphabet", "constant-with-random-stretch"};
+static void fill_random(char *p, size_t n, Rng &r)
+{
+    size_t i = 0;
+    for (; i + 8 <= n; i += 8) { const uint64_t x = r.next(); memcpy(p + i, &x, 8); }
+    if (i < n) { const uint64_t x = r.next(); memcpy(p + i, &x, n - i); }
+}
+static S scale_bytes(Rng &r, size_t n, unsigned kind)
+{
+    switch (kind) {
+    case 0: { S s(n, '\0'); if (n) fill_random(&s[0], n, r); return s; }
+    case 1: return S(n, '\0');
+    case 2: return S(n, '\xff');
+    case 3: return S(n, static_cast<char>(r.below(256)));
+    case 4: { S al = gen::any_bytes(r, 2 + r.below(3)); return gen::bytes_over(r, n, al); }
+    default: {
+        S s(n, static_cast<char>(r.below(256)));
+        if (n) {
+            S piece = gen::any_bytes(r, 1 + r.below(64));
+            scale::plant(s, scale::offset_any(r, n), piece);
+        }
+        return s;
+    }
+    }
+}
+// valid text of exactly n characters over the alphabet: one character repeated, or random
+static S scale_text(Rng &r, size_t n, const S &alphabet)
+{
+    if (r.chance(1, 3)) return S(n, alphabet[r.below(alphabet.size())]);
+    S s(n, '\0');
+    size_t i = 0;
+    while (i < n) {
+        uint64_t x = r.next();
+        for (int k = 0; k < 8 && i < n; ++k, x >>= 8) s[i++] = alphabet[(x & 255) % alphabet.size()];
+    }
+    return s;
+}
+
 // ---------------------------------------------------------------- C14
 static const char *PROP = "C14";
 static void v(const std::string &key, const std::string &detail) { vrt::violation(std::string(PROP) + ":" + key, detail); }
@@ -133,7 +197,7 @@ static void roundtrip(const S &data)
     ST::string hx = ST::hex_encode(in.data(), in.size());
     vrt::evals();
     S hxs = vrt::str_of(hx), want = ref_hex(data);
-    if (hxs != want) v("hex_encode:wrong", sfmt("data=%s got=%s want=%s", show(data).c_str(), hxs.c_str(), want.c_str()));
+    if (hxs != want) v("hex_encode:wrong", sfmt("data=%s got=%s want=%s", show(data).c_str(), txt(hxs, want).c_str(), txt(want, hxs).c_str()));
     if (hx.size() != 2 * data.size()) v("hex_encode:length", sfmt("data=%s size=%zu", show(data).c_str(), hx.size()));
     if (hx.c_str()[hx.size()] != 0) v("hex_encode:no-terminator", show(data));
     ST::char_buffer cb(data.data(), data.size());
@@ -144,16 +208,16 @@ static void roundtrip(const S &data)
             ST::char_buffer d = is_hex ? ST::hex_decode(text) : ST::base64_decode(text);
             vrt::evals();
             if (S(d.data(), d.size()) != data)
-                v(sfmt("%s:roundtrip-alloc", codec), sfmt("data=%s text=%s back=%s", show(data).c_str(), vrt::str_of(text).c_str(), vrt::hex(d.data(), d.size()).c_str()));
+                v(sfmt("%s:roundtrip-alloc", codec), sfmt("data=%s text=%s back=%s", show(data).c_str(), txt(text).c_str(), vrt::hex(d.data(), d.size()).c_str()));
             if (d.data()[d.size()] != 0) v(sfmt("%s:decode-no-terminator", codec), show(data));
         } catch (const ST::codec_error &e) {
-            v(sfmt("%s:roundtrip-alloc-threw", codec), sfmt("data=%s text=%s: %s", show(data).c_str(), vrt::str_of(text).c_str(), e.what()));
+            v(sfmt("%s:roundtrip-alloc-threw", codec), sfmt("data=%s text=%s: %s", show(data).c_str(), txt(text).c_str(), e.what()));
         }
         // caller-buffer decoder, buffer of exactly the needed size
         long need = static_cast<long>(is_hex ? ST::hex_decode(text, nullptr, 0) : ST::base64_decode(text, nullptr, 0));
         vrt::evals();
         if (need != static_cast<long>(data.size())) {
-            v(sfmt("%s:null-output-length", codec), sfmt("data=%s text=%s got=%ld want=%zu", show(data).c_str(), vrt::str_of(text).c_str(), need, data.size()));
+            v(sfmt("%s:null-output-length", codec), sfmt("data=%s text=%s got=%ld want=%zu", show(data).c_str(), txt(text).c_str(), need, data.size()));
             return;
         }
         vrt::Exact<char> out(data.data(), data.size());
@@ -161,7 +225,7 @@ static void roundtrip(const S &data)
         long w = static_cast<long>(is_hex ? ST::hex_decode(text, out.p, data.size()) : ST::base64_decode(text, out.p, data.size()));
         vrt::evals();
         if (w != static_cast<long>(data.size()) || memcmp(out.p, data.data(), data.size()) != 0)
-            v(sfmt("%s:roundtrip-buffer", codec), sfmt("data=%s text=%s returned=%ld back=%s", show(data).c_str(), vrt::str_of(text).c_str(), w, vrt::hex(out.p, data.size()).c_str()));
+            v(sfmt("%s:roundtrip-buffer", codec), sfmt("data=%s text=%s returned=%ld back=%s", show(data).c_str(), txt(text).c_str(), w, vrt::hex(out.p, data.size()).c_str()));
     };
     decode_both("hex", hx, true);
     ST::string up = hx.to_upper();
@@ -176,7 +240,7 @@ static void roundtrip(const S &data)
     vrt::evals();
     S bs = vrt::str_of(b);
     want = ref_b64(data);
-    if (bs != want) v("base64_encode:wrong", sfmt("data=%s got=%s want=%s", show(data).c_str(), bs.c_str(), want.c_str()));
+    if (bs != want) v("base64_encode:wrong", sfmt("data=%s got=%s want=%s", show(data).c_str(), txt(bs, want).c_str(), txt(want, bs).c_str()));
     if (b.size() != 4 * ((data.size() + 2) / 3)) v("base64_encode:length", sfmt("data=%s size=%zu", show(data).c_str(), b.size()));
     if (b.c_str()[b.size()] != 0) v("base64_encode:no-terminator", show(data));
     if (ST::base64_encode(cb) != b) v("base64_encode:buffer-overload-differs", show(data));
@@ -190,10 +254,266 @@ static void roundtrip(const S &data)
         enc = ST::hex_encode(in.data(), in.size()); enc2 = ST::base64_encode(in.data(), in.size());
         dec = ST::hex_decode(enc); dec2 = ST::base64_decode(enc2);
         vrt::evals(4);
-        if (vrt::str_of(enc) != hxs || vrt::str_of(enc2) != bs) v("encode:assigned-over-previous-value", sfmt("data=%s hex=%s base64=%s", show(data).c_str(), vrt::str_of(enc).c_str(), vrt::str_of(enc2).c_str()));
+        if (vrt::str_of(enc) != hxs || vrt::str_of(enc2) != bs) v("encode:assigned-over-previous-value", sfmt("data=%s hex=%s base64=%s", show(data).c_str(), txt(enc).c_str(), txt(enc2).c_str()));
         if (S(dec.data(), dec.size()) != data || S(dec2.data(), dec2.size()) != data || dec.data()[dec.size()] != 0 || dec2.data()[dec2.size()] != 0)
             v("decode:assigned-over-previous-value", sfmt("data=%s hex gave %s base64 gave %s", show(data).c_str(), vrt::hex(dec.data(), dec.size()).c_str(), vrt::hex(dec2.data(), dec2.size()).c_str()));
     }
+}
+
+
+// ---------------------------------------------------------------- beyond 32 bits (C14, thorough tier only)
+// One byte array of 2^32 + ~1000 bytes through base64_encode / hex_encode and back through the caller-buffer decoders.  The
+// array is a lazily mapped region (untouched pages cost nothing) that is zero except for random bytes in a few windows: at
+// the start, at the end, and around the offsets where a byte count, a remaining-byte count or a text index crosses 2^30,
+// 2^31 or 2^32.  The text is compared with the reference in full (zero stretches against runs of 'A' / '0', windows against
+// ref_b64 / ref_hex), then decoded into a second lazily mapped region that ends right at an inaccessible page.
+// The results need 6 to 9 GB each, more than the allocation cap the driver gives the sanitizer runtime, so the case runs
+// in a child process of its own (the same program, the same case address, a higher cap); what the child observes is
+// carried over into this process, and if it dies its diagnostics and its fate become this worker's.
+struct Lazy {
+    char *base = nullptr, *p = nullptr;
+    size_t maplen = 0;
+    bool map(size_t n)
+    {
+        const size_t pg = static_cast<size_t>(sysconf(_SC_PAGESIZE));
+        maplen = (n + pg - 1) / pg * pg + pg;
+        void *m = mmap(nullptr, maplen, PROT_READ | PROT_WRITE, MAP_PRIVATE | MAP_ANONYMOUS | MAP_NORESERVE, -1, 0);
+        if (m == MAP_FAILED) return false;
+        base = static_cast<char *>(m);
+        if (mprotect(base + maplen - pg, pg, PROT_NONE) != 0) return false;
+        p = base + maplen - pg - n;                  // the n bytes end exactly where the inaccessible page begins
+        return true;
+    }
+    ~Lazy() { if (base) munmap(base, maplen); }
+};
+typedef std::vector<std::pair<size_t, size_t>> Windows;
+static bool in_windows(const Windows &w, size_t lo, size_t hi)
+{
+    for (const auto &x : w) if (lo < x.second && x.first < hi) return true;
+    return false;
+}
+// the library's text for in[0, n) against the reference, piece by piece (a piece is 3 * 2^16 bytes, so pieces encode independently)
+static bool beyond32_text(const char *key, const char *text, size_t text_len, const char *in, size_t n, const Windows &win, bool is_hex)
+{
+    const size_t CH = 3u << 16;
+    const size_t want_len = is_hex ? 2 * n : 4 * ((n + 2) / 3);
+    if (text_len != want_len) { v(sfmt("%s:length", key), sfmt("input of %zu bytes: size=%zu, expected %zu", n, text_len, want_len)); return false; }
+    const S plain(is_hex ? 2 * CH : CH / 3 * 4, is_hex ? '0' : 'A');
+    for (size_t o = 0; o < n; o += CH) {
+        const size_t len = std::min(CH, n - o), toff = is_hex ? 2 * o : o / 3 * 4;
+        S ref;
+        const char *want = plain.data();
+        size_t wlen = is_hex ? 2 * len : len / 3 * 4;
+        if (in_windows(win, o, o + len) || len % 3 != 0) {
+            const S piece(in + o, len);
+            ref = is_hex ? ref_hex(piece) : ref_b64(piece);
+            want = ref.data();
+            wlen = ref.size();
+            vrt::count("beyond32.pieces_against_reference_encoder");
+        } else vrt::count("beyond32.pieces_of_zero_bytes");
+        if (toff + wlen > text_len || memcmp(text + toff, want, wlen) != 0) {
+            size_t d = 0;
+            while (toff + d < text_len && d < wlen && text[toff + d] == want[d]) ++d;
+            const size_t lo = d > 12 ? d - 12 : 0, hi = std::min(wlen, d + 12), thi = std::min(text_len, toff + hi);
+            v(sfmt("%s:wrong", key), sfmt("input of %zu bytes (zero bytes except in a few windows): the text differs from the reference at character %zu (input byte %zu): got[%zu..]=%s want=%s",
+                                        n, toff + d, o + (is_hex ? d / 2 : d / 4 * 3), toff + lo, vrt::hex(text + toff + lo, thi > toff + lo ? thi - toff - lo : 0).c_str(), vrt::hex(want + lo, hi - lo).c_str()));
+            return false;
+        }
+    }
+    if (text[text_len] != 0) { v(sfmt("%s:no-terminator", key), sfmt("input of %zu bytes", n)); return false; }
+    return true;
+}
+static bool beyond32_back(const char *codec, const char *out, long returned, const char *in, size_t n)
+{
+    if (returned != static_cast<long>(n)) { v(sfmt("%s:roundtrip-buffer", codec), sfmt("input of %zu bytes: the caller-buffer decoder returned %ld", n, returned)); return false; }
+    const size_t CH = 64u << 20;
+    for (size_t o = 0; o < n; o += CH) {
+        const size_t len = std::min(CH, n - o);
+        if (memcmp(out + o, in + o, len) != 0) {
+            size_t d = 0;
+            while (d < len && out[o + d] == in[o + d]) ++d;
+            const size_t lo = o + d > 12 ? o + d - 12 : 0, hi = std::min(n, o + d + 12);
+            v(sfmt("%s:roundtrip-buffer", codec), sfmt("input of %zu bytes: decoded byte %zu differs: back[%zu..]=%s data=%s", n, o + d, lo, vrt::hex(out + lo, hi - lo).c_str(), vrt::hex(in + lo, hi - lo).c_str()));
+            return false;
+        }
+    }
+    return true;
+}
+static void beyond32_work(Rng &r)
+{
+    const size_t two32 = static_cast<size_t>(1) << 32;
+    const size_t n = two32 + 1000 + r.below(3);
+    vrt::cur_printf("beyond32: %zu bytes\n", n);
+    Lazy in;
+    if (!in.map(n)) { vrt::count("beyond32.skipped"); vrt::note("beyond32: cannot map the input"); return; }
+    Windows win;
+    const size_t W = 12288;
+    for (size_t c : {static_cast<size_t>(0), n - two32, two32 / 4, 3 * (two32 / 8), two32 / 2, n - two32 / 2, 3 * (two32 / 4), two32, n}) {
+        const size_t lo = c > W ? c - W : 0, hi = std::min(n, c + W);
+        win.push_back({lo, hi});
+        fill_random(in.p + lo, hi - lo, r);
+    }
+    vrt::count("beyond32.input_bytes", n);
+    // ---- base64
+    {
+        ST::string b = ST::base64_encode(in.p, n);
+        vrt::evals();
+        vrt::count("beyond32.base64_encode");
+        if (beyond32_text("base64_encode", b.c_str(), b.size(), in.p, n, win, false)) {
+            const long need = static_cast<long>(ST::base64_decode(b, nullptr, 0));
+            vrt::evals();
+            if (need != static_cast<long>(n)) v("base64:null-output-length", sfmt("input of %zu bytes: got=%ld", n, need));
+            Lazy out;
+            if (!out.map(n)) { vrt::count("beyond32.skipped"); vrt::note("beyond32: cannot map the output"); return; }
+            memset(out.p, 0xEE, n);
+            const long w = static_cast<long>(ST::base64_decode(b, out.p, n));
+            vrt::evals();
+            if (beyond32_back("base64", out.p, w, in.p, n)) vrt::count("beyond32.base64_decoded_back");
+        }
+    }
+    // ---- hex
+    {
+        ST::string h = ST::hex_encode(in.p, n);
+        vrt::evals();
+        vrt::count("beyond32.hex_encode");
+        if (beyond32_text("hex_encode", h.c_str(), h.size(), in.p, n, win, true)) {
+            const long need = static_cast<long>(ST::hex_decode(h, nullptr, 0));
+            vrt::evals();
+            if (need != static_cast<long>(n)) v("hex:null-output-length", sfmt("input of %zu bytes: got=%ld", n, need));
+            Lazy out;
+            if (!out.map(n)) { vrt::count("beyond32.skipped"); vrt::note("beyond32: cannot map the output"); return; }
+            memset(out.p, 0xEE, n);
+            const long w = static_cast<long>(ST::hex_decode(h, out.p, n));
+            vrt::evals();
+            if (beyond32_back("hex", out.p, w, in.p, n)) vrt::count("beyond32.hex_decoded_back");
+        }
+    }
+    vrt::count("beyond32.done");
+}
+static unsigned long long mem_available_kb()
+{
+    FILE *f = fopen("/proc/meminfo", "r");
+    if (!f) return 0;
+    char line[256];
+    unsigned long long kb = 0;
+    while (fgets(line, sizeof(line), f))
+        if (sscanf(line, "MemAvailable: %llu kB", &kb) == 1) break;
+    fclose(f);
+    return kb;
+}
+extern char **environ;
+static void beyond32_case(Rng &r)
+{
+    const char *result_path = getenv("VRT_BEYOND32_CHILD");
+    if (result_path) {
+        // the child: do the work, then hand everything observed to the parent
+        beyond32_work(r);
+        FILE *f = fopen(result_path, "w");
+        if (!f) { perror("beyond32: result file"); _exit(98); }
+        fprintf(f, "E\t%llu\n", static_cast<unsigned long long>(vrt::st().evaluations));
+        for (const auto &kv : vrt::st().counters) if (kv.second) fprintf(f, "C\t%s\t%llu\n", kv.first.c_str(), static_cast<unsigned long long>(kv.second));
+        for (const std::string &nt : vrt::st().notes) fprintf(f, "N\t%s\n", nt.c_str());
+        for (const auto &kv : vrt::st().violations) {
+            S d = kv.second.detail;
+            for (char &c : d) if (c == '\n' || c == '\t') c = ' ';
+            fprintf(f, "V\t%s\t%s\n", kv.first.c_str(), d.c_str());
+        }
+        fprintf(f, "DONE\n");
+        fclose(f);
+        return;
+    }
+    const unsigned long long avail = mem_available_kb();
+    if (avail < (24ull << 20)) {
+        vrt::count("beyond32.skipped");
+        vrt::note(sfmt("beyond32: skipped, only %llu MB of memory available (24576 MB wanted)", avail >> 10));
+        return;
+    }
+    char exe[4096];
+    const ssize_t el = readlink("/proc/self/exe", exe, sizeof(exe) - 1);
+    if (el <= 0) { vrt::count("beyond32.skipped"); vrt::note("beyond32: skipped, cannot find the executable"); return; }
+    exe[el] = 0;
+    const std::string dir = vrt::opt().outdir + sfmt("/beyond32.w%d", vrt::opt().worker), errp = dir + "/stderr", resp = dir + "/result";
+    mkdir(dir.c_str(), 0755);
+    unlink(resp.c_str());
+    std::vector<std::string> envs;
+    std::string asan = "ASAN_OPTIONS=";
+    for (char **e = environ; *e; ++e) {
+        if (strncmp(*e, "ASAN_OPTIONS=", 13) == 0) asan = std::string(*e) + ":";
+        else if (strncmp(*e, "VRT_BEYOND32_CHILD=", 19) != 0) envs.push_back(*e);
+    }
+    envs.push_back(asan + "max_allocation_size_mb=65536");
+    envs.push_back("VRT_BEYOND32_CHILD=" + resp);
+    std::vector<char *> envp;
+    for (std::string &e : envs) envp.push_back(&e[0]);
+    envp.push_back(nullptr);
+    const std::string seed = sfmt("%llu", static_cast<unsigned long long>(vrt::opt().seed));
+    const char *argv[] = {exe, "--prop", "C14", "--tier", "thorough", "--seed", seed.c_str(), "--out", dir.c_str(), "--case", "beyond32:0", nullptr};
+    posix_spawn_file_actions_t fa;
+    posix_spawn_file_actions_init(&fa);
+    posix_spawn_file_actions_addopen(&fa, 1, errp.c_str(), O_WRONLY | O_CREAT | O_TRUNC, 0644);
+    posix_spawn_file_actions_adddup2(&fa, 1, 2);
+    pid_t pid = 0;
+    const int rc = posix_spawn(&pid, exe, &fa, nullptr, const_cast<char *const *>(argv), envp.data());
+    posix_spawn_file_actions_destroy(&fa);
+    if (rc != 0) { vrt::count("beyond32.skipped"); vrt::note(sfmt("beyond32: skipped, cannot start the child process: %s", strerror(rc))); return; }
+    vrt::cur_printf("beyond32: child process %d, diagnostics in %s\n", static_cast<int>(pid), errp.c_str());
+    int status = 0;
+    while (waitpid(pid, &status, 0) < 0 && errno == EINTR) { }
+    // what the child observed
+    bool done = false;
+    std::vector<std::string> lines;
+    if (FILE *f = fopen(resp.c_str(), "r")) {
+        std::string cur;
+        int ch;
+        while ((ch = fgetc(f)) != EOF) { if (ch == '\n') { lines.push_back(cur); cur.clear(); } else cur += static_cast<char>(ch); }
+        fclose(f);
+        done = !lines.empty() && lines.back() == "DONE";
+    }
+    if (done && WIFEXITED(status) && (WEXITSTATUS(status) == 0 || WEXITSTATUS(status) == 1)) {
+        for (const std::string &l : lines) {
+            const size_t t1 = l.find('\t'), t2 = t1 == std::string::npos ? t1 : l.find('\t', t1 + 1);
+            if (l[0] == 'E' && t1 != std::string::npos) vrt::evals(strtoull(l.c_str() + t1 + 1, nullptr, 10));
+            else if (l[0] == 'C' && t2 != std::string::npos) vrt::count(l.substr(t1 + 1, t2 - t1 - 1), strtoull(l.c_str() + t2 + 1, nullptr, 10));
+            else if (l[0] == 'N' && t1 != std::string::npos && l.compare(t1 + 1, 8, "beyond32") == 0) vrt::note(l.substr(t1 + 1));
+            else if (l[0] == 'V' && t2 != std::string::npos) vrt::violation(l.substr(t1 + 1, t2 - t1 - 1), l.substr(t2 + 1));
+        }
+        return;
+    }
+    // the child died: its diagnostics and its fate become this worker's (the driver classifies them as for any worker)
+    if (FILE *f = fopen(errp.c_str(), "r")) {
+        char buf[4096];
+        size_t k;
+        while ((k = fread(buf, 1, sizeof(buf), f)) > 0) if (fwrite(buf, 1, k, stderr) != k) break;
+        fclose(f);
+        fflush(stderr);
+    }
+    if (WIFSIGNALED(status) && WTERMSIG(status) == SIGKILL) {
+        // killed from outside (the kernel's out-of-memory killer, most likely): says nothing about the library
+        vrt::count("beyond32.skipped");
+        vrt::note("beyond32: skipped, the child process was killed (out of memory?)");
+        return;
+    }
+    if (WIFSIGNALED(status)) {
+        vrt::cur_printf("beyond32: the child process died of signal %d\n", WTERMSIG(status));
+        signal(WTERMSIG(status), SIG_DFL);
+        raise(WTERMSIG(status));
+        _exit(99);
+    }
+    if (WEXITSTATUS(status) == 97) { vrt::cur_printf("HANG\n"); _exit(97); }
+    vrt::cur_printf("beyond32: the child process exited with status %d\n", WEXITSTATUS(status));
+    _exit(WEXITSTATUS(status) ? WEXITSTATUS(status) : 98);
+}
+static void beyond32_phase()
+{
+    vrt::require("beyond32.ran_or_skipped", 1);
+    vrt::case_cpu_budget() = 1500;       // the one case that is allowed to take minutes
+    vrt::phase("beyond32", 1, [&](uint64_t, Rng &r) {
+        beyond32_case(r);
+        if (getenv("VRT_BEYOND32_CHILD")) return;
+        const uint64_t done = vrt::counter("beyond32.done"), skipped = vrt::counter("beyond32.skipped");
+        if (done || skipped) vrt::count("beyond32.ran_or_skipped");
+    });
+    vrt::case_cpu_budget() = 30;
 }
 
 static void c14_body()
@@ -258,6 +578,46 @@ static void c14_body()
         if (ST::hex_decode(ST::string()).size() != 0) v("hex_decode:empty", "decode of empty text not empty");
         if (ST::base64_decode(ST::string()).size() != 0) v("base64_decode:empty", "decode of empty text not empty");
     });
+    // scale: byte arrays of up to 4 MiB whose length - or the length of their base64 text, or of their hex
+    // text - is a multiple q*B of a block size, and the two lengths on either side of it: the encoded text then ends exactly
+    // on a block boundary without padding, with '=' and with '==', or one group / digit pair beyond it.  Content: random,
+    // homogeneous, small alphabet, homogeneous with one random stretch near a multiple of a block size.
+    {
+        vrt::require("scale.cases", 300);
+        vrt::require("scale.base64_text_is_multiple_of_block.padded", 40);
+        vrt::require("scale.input>=64KiB", 60);
+        vrt::require("scale.input>=512KiB", 5);
+        const std::vector<size_t> &BL = scale::blocks();
+        const uint64_t NB = BL.size(), PER = NB * 8 * 3 * 5;
+        const size_t cap = 4u << 20;
+        vrt::phase("scale", vrt::tier_count(PER, PER * 12), [&](uint64_t i, Rng &r) {
+            const size_t B = BL[i % NB], q = 1 + (i / NB) % 8;
+            const unsigned unit = static_cast<unsigned>((i / (NB * 8)) % 3);       // what is a multiple of B: 0 the byte array, 1 its base64 text, 2 its hex text
+            long d = static_cast<long>((i / (NB * 8 * 3)) % 5) - 2;
+            if ((i / PER) % 2 == 1) d = static_cast<long>(r.range(-12, 12));       // later rounds of the grid: further distances
+            const size_t T = q * B;
+            if (T > cap) { vrt::count("scale.skipped_too_large"); return; }
+            const size_t n0 = unit == 0 ? T : unit == 1 ? T / 4 * 3 : T / 2;
+            if (static_cast<long>(n0) + d < 0) return;
+            const size_t n = static_cast<size_t>(static_cast<long>(n0) + d);
+            const unsigned kind = static_cast<unsigned>(r.below(6));
+            const S data = scale_bytes(r, n, kind);
+            roundtrip(data);
+            vrt::count("scale.cases");
+            vrt::count(unit == 0 ? "scale.multiple_of_block.input" : unit == 1 ? "scale.multiple_of_block.base64_text" : "scale.multiple_of_block.hex_text");
+            vrt::count(sfmt("scale.content.%s", CONTENT[kind]));
+            if (n % 3 != 0 && (4 * ((n + 2) / 3)) % B == 0) vrt::count("scale.base64_text_is_multiple_of_block.padded");
+            if (n % 3 == 0 && n && (4 * (n / 3)) % B == 0) vrt::count("scale.base64_text_is_multiple_of_block.unpadded");
+            if (n && (2 * n) % B == 0) vrt::count("scale.hex_text_is_multiple_of_block");
+            if (n >= 65536) vrt::count("scale.input>=64KiB");
+            if (n >= 524288) vrt::count("scale.input>=512KiB");
+            if (n >= (2u << 20)) vrt::count("scale.input>=2MiB");
+            vrt::distinct(vrt::fnv1a(data.data(), data.size(), 45));
+            if (vrt::want_sample("scale") && n >= 49000 && unit == 1)
+                vrt::sample("scale", sfmt("data %s (%s): %zu bytes = (base64 text of %zu x %zu characters) %+ld", scale::brief(data).c_str(), CONTENT[kind], n, q, B, d));
+        });
+    }
+    if (vrt::thorough()) beyond32_phase();
 }
 
 // ---------------------------------------------------------------- C15
@@ -265,7 +625,7 @@ static void decode_case(const S &text, bool is_hex)
 {
     const char *codec = is_hex ? "hex_decode" : "base64_decode";
     vrt::cur_rewind();
-    vrt::cur_printf("%s text=%s\n", codec, show(text).c_str());
+    vrt::cur_printf("%s text=%s\n", codec, showt(text).c_str());
     S want;
     const bool ok = is_hex ? ref_hex_decode(text, want) : ref_b64_decode(text, want);
     const long implied = is_hex ? implied_hex(text) : implied_b64(text);
@@ -274,18 +634,18 @@ static void decode_case(const S &text, bool is_hex)
     vrt::evals();
     try {
         ST::char_buffer d = is_hex ? ST::hex_decode(*st) : ST::base64_decode(*st);
-        if (!ok) v(sfmt("%s:alloc-accepted-invalid", codec), sfmt("text=%s decoded=%s", show(text).c_str(), vrt::hex(d.data(), d.size()).c_str()));
-        else if (S(d.data(), d.size()) != want) v(sfmt("%s:alloc-wrong-bytes", codec), sfmt("text=%s got=%s want=%s", show(text).c_str(), vrt::hex(d.data(), d.size()).c_str(), show(want).c_str()));
-        if (d.data()[d.size()] != 0) v(sfmt("%s:no-terminator", codec), show(text));
+        if (!ok) v(sfmt("%s:alloc-accepted-invalid", codec), sfmt("text=%s decoded=%s", showt(text).c_str(), vrt::hex(d.data(), d.size()).c_str()));
+        else if (S(d.data(), d.size()) != want) v(sfmt("%s:alloc-wrong-bytes", codec), sfmt("text=%s got=%s want=%s", showt(text).c_str(), vrt::hex(d.data(), d.size()).c_str(), show(want).c_str()));
+        if (d.data()[d.size()] != 0) v(sfmt("%s:no-terminator", codec), showt(text));
     } catch (const ST::codec_error &) {
-        if (ok) v(sfmt("%s:alloc-rejected-valid", codec), sfmt("text=%s", show(text).c_str()));
+        if (ok) v(sfmt("%s:alloc-rejected-valid", codec), sfmt("text=%s", showt(text).c_str()));
     }
     // null output: decoded length implied by length and padding
     vrt::evals();
     long nl = static_cast<long>(is_hex ? ST::hex_decode(*st, nullptr, 0) : ST::base64_decode(*st, nullptr, 0));
-    if (nl != implied) v(sfmt("%s:null-output-length", codec), sfmt("text=%s got=%ld want=%ld", show(text).c_str(), nl, implied));
+    if (nl != implied) v(sfmt("%s:null-output-length", codec), sfmt("text=%s got=%ld want=%ld", showt(text).c_str(), nl, implied));
     long nl2 = static_cast<long>(is_hex ? ST::hex_decode(*st, nullptr, 1000) : ST::base64_decode(*st, nullptr, 1000));
-    if (nl2 != implied) v(sfmt("%s:null-output-length", codec), sfmt("text=%s output_size=1000 got=%ld want=%ld", show(text).c_str(), nl2, implied));
+    if (nl2 != implied) v(sfmt("%s:null-output-length", codec), sfmt("text=%s output_size=1000 got=%ld want=%ld", showt(text).c_str(), nl2, implied));
     // caller-buffer form with output_size below, at and above the decoded length
     const size_t len = implied >= 0 ? static_cast<size_t>(implied) : text.size();
     std::vector<size_t> sizes = {0, len, len + 1, len + 64};
@@ -298,16 +658,16 @@ static void decode_case(const S &text, bool is_hex)
         memset(out, 0xEE, osz ? osz : 1);
         long w = static_cast<long>(is_hex ? ST::hex_decode(*st, out, osz) : ST::base64_decode(*st, out, osz));
         if (!ok) {
-            if (w != -1) v(sfmt("%s:buffer-accepted-invalid", codec), sfmt("text=%s output_size=%zu returned=%ld", show(text).c_str(), osz, w));
+            if (w != -1) v(sfmt("%s:buffer-accepted-invalid", codec), sfmt("text=%s output_size=%zu returned=%ld", showt(text).c_str(), osz, w));
         } else if (osz < want.size()) {
-            if (w != -1) v(sfmt("%s:buffer-too-small-not-rejected", codec), sfmt("text=%s output_size=%zu returned=%ld", show(text).c_str(), osz, w));
+            if (w != -1) v(sfmt("%s:buffer-too-small-not-rejected", codec), sfmt("text=%s output_size=%zu returned=%ld", showt(text).c_str(), osz, w));
             vrt::count("buffer.too_small");
         } else {
             if (w != static_cast<long>(want.size()) || memcmp(out, want.data(), want.size()) != 0)
-                v(sfmt("%s:buffer-wrong", codec), sfmt("text=%s output_size=%zu returned=%ld got=%s want=%s", show(text).c_str(), osz, w, vrt::hex(out, std::min(osz, want.size())).c_str(), show(want).c_str()));
+                v(sfmt("%s:buffer-wrong", codec), sfmt("text=%s output_size=%zu returned=%ld got=%s want=%s", showt(text).c_str(), osz, w, vrt::hex(out, std::min(osz, want.size())).c_str(), show(want).c_str()));
             for (size_t k = want.size(); k < osz; ++k)
                 if (static_cast<unsigned char>(out[k]) != 0xEE) {
-                    v(sfmt("%s:wrote-beyond-returned-length", codec), sfmt("text=%s output_size=%zu byte %zu modified", show(text).c_str(), osz, k));
+                    v(sfmt("%s:wrote-beyond-returned-length", codec), sfmt("text=%s output_size=%zu byte %zu modified", showt(text).c_str(), osz, k));
                     break;
                 }
             vrt::count("buffer.success");
@@ -321,9 +681,9 @@ static void decode_case(const S &text, bool is_hex)
         char *out = static_cast<char *>(malloc(len ? len : 1));
         long w = static_cast<long>(is_hex ? ST::hex_decode(*st, out, osz) : ST::base64_decode(*st, out, osz));
         if (!ok) {
-            if (w != -1) v(sfmt("%s:buffer-accepted-invalid", codec), sfmt("text=%s output_size=%zu returned=%ld", show(text).c_str(), osz, w));
+            if (w != -1) v(sfmt("%s:buffer-accepted-invalid", codec), sfmt("text=%s output_size=%zu returned=%ld", showt(text).c_str(), osz, w));
         } else if (w != static_cast<long>(want.size()) || memcmp(out, want.data(), want.size()) != 0) {
-            v(sfmt("%s:buffer-wrong", codec), sfmt("text=%s output_size=%zu returned=%ld want=%s", show(text).c_str(), osz, w, show(want).c_str()));
+            v(sfmt("%s:buffer-wrong", codec), sfmt("text=%s output_size=%zu returned=%ld want=%s", showt(text).c_str(), osz, w, show(want).c_str()));
         }
         vrt::count("buffer.huge_output_size");
         free(out);
@@ -427,6 +787,121 @@ static void c15_body()
         decode_case(h, true);
         if (vrt::want_sample("random") && t.size() > 8) vrt::sample("random", sfmt("base64 text=%s hex text=%s", show(t).c_str(), show(h).c_str()));
     });
+    // scale: texts of up to ~2 MiB (thorough: ~4 MiB) in which the one thing that decides between accept and reject sits on
+    // a block boundary.  The case index walks a grid: block size B x multiple q x what is planted where; the boundary lies
+    // q*B characters - or the characters of q*B decoded bytes - from the beginning or from the end of the text.  Planted:
+    // a character outside the alphabet / '=' / NUL / a byte >= 0x80 as the last character of the run that ends at the
+    // boundary, as the first character of the next run, elsewhere in the last group of the run, in the last group of the
+    // text, in the group before it; nothing (valid text, without and with padding); a length that is off by one to three
+    // characters; too much or misplaced padding at the end of the text or at the end of the run.  Everything else in the
+    // text is valid, so the planted feature alone decides.  Each text goes through decode_case like every other input
+    // (allocating form, size query, caller-buffer form with output_size below / at / above the decoded size and huge).
+    {
+        vrt::require("scale.cases", 1000);
+        vrt::require("scale.valid", 100);
+        vrt::require("scale.invalid", 500);
+        vrt::require("scale.text>=64KiB", 200);
+        vrt::require("scale.only_bad_character_in_last_group_of_a_run.text_continues", 100);
+        vrt::require("scale.valid_padded_text_is_multiple_of_block", 20);
+        vrt::require("scale.padding_at_end_of_run.text_continues", 10);
+        const std::vector<size_t> &BL = scale::blocks();
+        const uint64_t NB = BL.size(), PER = NB * 8 * 8;
+        const size_t cap = vrt::thorough() ? (4u << 20) : (2u << 20);
+        static const char *const WHERE[] = {"last_character_of_run", "first_character_of_next_run", "last_group_of_run", "last_group_of_text", "group_before_last_group_of_text",
+                                            "nothing_planted", "length_off", "padding_misplaced"};
+        const S hexal = "0123456789abcdefABCDEF";
+        vrt::phase("scale", vrt::tier_count(PER * 4, PER * 8 * 8), [&](uint64_t i, Rng &r) {
+            const uint64_t j = i % PER, k = i / PER;
+            const size_t B = BL[j % NB], q = 1 + (j / NB) % 8;
+            const unsigned where = static_cast<unsigned>((j / (NB * 8)) % 8);
+            const unsigned combo = static_cast<unsigned>((3 * j + k) % 8);          // every (B, q, where) meets all 8 combinations over 8 rounds
+            const bool from_end = (combo & 1) != 0, is_hex = (combo & 2) != 0, decoded_units = (combo & 4) != 0;
+            const size_t G = is_hex ? 2 : 4;                                       // characters per group
+            const size_t dist = q * B;
+            if (dist > cap) { vrt::count("scale.skipped_too_large"); return; }
+            size_t bchars = decoded_units ? (is_hex ? dist * 2 : dist / 3 * 4) : dist / G * G;     // the boundary, in characters, on a group boundary
+            if (bchars < 2 * G) bchars = 2 * G;
+            // what lies on the other side of the boundary: nothing, a group or two, a few dozen groups, a long stretch
+            size_t margin = G * (r.chance(1, 3) ? r.below(3) : r.chance(1, 2) ? 3 + r.below(40) : 1000 + r.below(20000));
+            if (where == 5 && r.chance(1, 2)) margin = 0;                          // valid text that ends exactly on the boundary
+            const size_t L = bchars + margin;
+            size_t bpos = from_end ? L - bchars : bchars;                          // first character after the boundary
+            if (bpos < G) bpos = bchars;                                           // (from the end with no margin: use the other end)
+            static const S b64al(B64);
+            const S &al = is_hex ? hexal : b64al;
+            S text = scale_text(r, L, al);
+            static const char bad64[] = {'=', '=', '*', '\0', '\x80', '\xff', '-', '_', ' ', '\n', '.', ',', ':', '@', '[', '`', '{', '\xc1', '\xe1'};
+            static const char badhex[] = {'g', 'G', '/', ':', '@', '`', '\0', '\x80', '\xff', ' ', 'x', '=', '\xb1', '\xc1', '\xe1'};
+            const char bad = is_hex ? badhex[r.below(sizeof(badhex))] : bad64[r.below(sizeof(bad64))];
+            size_t at = std::string::npos;
+            std::vector<S> texts;
+            switch (where) {
+            case 0: at = bpos - 1; break;
+            case 1: at = bpos < L ? bpos : L - 1; break;
+            case 2: at = bpos - G + r.below(G - 1); break;
+            case 3: at = L - G + r.below(G); break;
+            case 4: at = L - 2 * G + r.below(G); break;
+            case 5:                                                                // valid: no padding, '=', '==' (hex: as it is, all upper case, all lower case)
+                texts.push_back(text);
+                if (is_hex) {
+                    S u = text, l = text;
+                    for (char &c : u) if (c >= 'a' && c <= 'f') c = static_cast<char>(c - 32);
+                    for (char &c : l) if (c >= 'A' && c <= 'F') c = static_cast<char>(c + 32);
+                    texts.push_back(u); texts.push_back(l);
+                } else {
+                    S p1 = text, p2 = text;
+                    p1[L - 1] = '='; p2[L - 1] = '='; p2[L - 2] = '=';
+                    texts.push_back(p1); texts.push_back(p2);
+                    if (L % B == 0 || (decoded_units && (L / 4 * 3) % B == 0)) vrt::count("scale.valid_padded_text_is_multiple_of_block", 2);
+                }
+                break;
+            case 6: {                                                              // length off by 1..3 characters (too short / too long), otherwise valid
+                const size_t off = 1 + r.below(3);
+                if (r.chance(1, 2)) text.resize(L - off); else text += scale_text(r, off, al);
+                if (!is_hex && r.chance(1, 3)) text[text.size() - 1] = '=';
+                break;
+            }
+            default:
+                if (is_hex) { text[bpos - 1] = r.chance(1, 2) ? '0' : bad; text[bpos < L ? bpos : L - 2] = r.chance(1, 2) ? 'x' : bad; at = bpos - 1; }   // "0x" / two bad characters across the boundary
+                else {
+                    static const char *const tails[] = {"===", "====", "=A", "=A=", "=AA", "==A", "A=A=", "=A==", "=\0=", "=\x80"};
+                    const unsigned t = static_cast<unsigned>(r.below(12));
+                    if (t < 10) { const S tail(tails[t], t == 8 ? 3 : strlen(tails[t])); at = scale::plant(text, L - tail.size(), tail); }
+                    else {
+                        // padding at the end of the run, and the text goes on (separately encoded pieces joined together)
+                        const S pad = t == 10 ? "=" : "==";
+                        at = scale::plant(text, bpos - pad.size(), pad);
+                        if (bpos < L) vrt::count("scale.padding_at_end_of_run.text_continues");
+                        if (r.chance(1, 2)) text[L - 1] = '=';
+                    }
+                }
+                break;
+            }
+            if (where <= 4) {
+                text[at] = bad;
+                if (!is_hex && at + 2 * G < L && r.chance(1, 3)) { text[L - 1] = '='; if (r.chance(1, 2)) text[L - 2] = '='; }    // and valid padding at the end
+                if (at + G >= bpos && at < bpos && bpos < L) vrt::count("scale.only_bad_character_in_last_group_of_a_run.text_continues");
+            }
+            if (texts.empty()) texts.push_back(text);
+            uint64_t &cv = vrt::counter(is_hex ? "hex.valid" : "base64.valid"), &ci = vrt::counter(is_hex ? "hex.invalid" : "base64.invalid");
+            const uint64_t v0 = cv, i0 = ci;
+            g_focus = at;
+            for (const S &t : texts) decode_case(t, is_hex);
+            g_focus = std::string::npos;
+            vrt::count("scale.valid", cv - v0);
+            vrt::count("scale.invalid", ci - i0);
+            vrt::count("scale.cases");
+            vrt::count(sfmt("scale.where.%s", WHERE[where]));
+            vrt::count(from_end ? "scale.boundary_measured.from_end" : "scale.boundary_measured.from_beginning");
+            vrt::count(decoded_units ? "scale.boundary_measured.in_decoded_bytes" : "scale.boundary_measured.in_characters");
+            vrt::count(is_hex ? "scale.hex" : "scale.base64");
+            if (text.size() >= 65536) vrt::count("scale.text>=64KiB");
+            if (text.size() >= (1u << 20)) vrt::count("scale.text>=1MiB");
+            if (vrt::want_sample("scale") && where == 0 && text.size() > 65536)
+                vrt::sample("scale", sfmt("%s text %s: boundary %zu x %zu %s from the %s = character %zu, %s at %zu", is_hex ? "hex" : "base64", scale::brief(text, at).c_str(), q, B,
+                                          decoded_units ? "decoded bytes" : "characters", from_end ? "end" : "beginning", bpos, WHERE[where], at));
+        });
+    }
 }
 
 static void body()
